@@ -456,6 +456,7 @@ func C15(c *hx.Ctx) {
 	// stale temporary files and an unwritable standard output
 	gxzStaleTemp(c, bin)
 	gxzFullStdout(c, bin)
+	gxzOperandEdgeCases(c, bin)
 	// preset round trips and xz-utils interoperability
 	plain := MakeData("alternating", 60000, c.Seed)
 	// "-0 ... -9 compression preset; default is 6": no preset option and -6 give the same bytes
